@@ -13,6 +13,7 @@ From QV.HashFn Require FnvModel MurmurModel Md5Model FnvSpec MurmurSpec Md5Spec.
 From QV.Seq Require VectorModel VectorSpec.
 From QV.Seq Require ListModel ListSpec WrapModel WrapSpec.
 From QV.Hash Require HashtblModel HashtblSpec.
+From QV.Seq Require ListtblModel ListtblSpec.
 Extraction Blacklist List String Int.
 Extraction "../ocaml/gen/enc_model.ml" Res.num_anchor
    EncModel.url_encode EncModel.url_dec_buf EncModel.url_decode EncModel.hex_encode EncModel.hex_dec_buf EncModel.hex_decode
@@ -37,3 +38,5 @@ Extraction "../ocaml/gen/seq_model.ml" Res.num_anchor
    ListModel.QL ListSpec.QLS WrapModel.QW WrapSpec.QWS.
 Extraction "../ocaml/gen/hashtbl_model.ml" Res.num_anchor
    HashtblModel.hinit HashtblModel.hstep HashtblModel.hflat HashtblModel.hatoll HashtblModel.hatoll_stops HashtblModel.hprint_dec HashtblSpec.hsstep.
+Extraction "../ocaml/gen/listtbl_model.ml" Res.num_anchor
+   ListtblModel.lt_init ListtblModel.lt_step ListtblModel.payload ListtblSpec.lt_sstep ListtblSpec.mkCfg.
